@@ -214,10 +214,14 @@ def generate(rng, tier, index):
         if rng.random() < p:
             re[str(e)] = "load" if (sc["state_dir"] is not None and rng.random() < 0.75) else "noload"
     sc["restarts"] = re
+    if mode == 1:
+        # no history file: the record lives in memory only (no restart can follow; the rules still apply)
+        sc["csv"] = None
+        sc["restarts"] = {}
     sc["_plan_seed"] = rng.randrange(1 << 30)
     # REDO(k): epoch k is run again after reloading epoch k-1's checkpoint (update_for_epoch(..., epoch=k)),
     # which appends a second row for k to the append-only history; the later row is the valid one
-    if (sc["state_dir"] is not None and not sc["params"]["keep_last_and_best_only"] and "{epoch" in sc["params"]["saved_model_fmt"]
+    if (sc["csv"] is not None and sc["state_dir"] is not None and not sc["params"]["keep_last_and_best_only"] and "{epoch" in sc["params"]["saved_model_fmt"]
             and "{epoch" in sc["params"]["saved_optimizer_fmt"] and n >= 2 and rng.random() < 0.3):
         k = rng.randrange(2, n + 1)
         sc["redo"] = {str(k): [rng.choice(ts.GRID), rng.choice(ts.GRID)]}
@@ -230,6 +234,8 @@ def concrete_cases(base, tier):
     n = len(base["metrics"])
     kind = "load" if base["state_dir"] is not None else "noload"
     yield dict(base, restarts={})
+    if base["csv"] is None:
+        return
     if base["restarts"]:
         yield dict(base)
     yield dict(base, restarts={str(e): kind for e in range(1, n)})
